@@ -292,6 +292,54 @@ def preempt_records(jp, rng, runs_per_scenario, only_shared_prefix=None):
                     add(texts[t], docs[t], ("ok", after[t]()), f"preempt{n}-after")
                 except Exception as err:  # noqa: BLE001
                     add(texts[t], docs[t], ("raise", err), f"preempt{n}-after")
+    if only_shared_prefix is None:
+        # an environment WITH A PAST (300 distinct queries compiled): thread A asks again for texts that are the oldest entries of any
+        # bounded least-recently-used cache of 64 / 128 / 256 queries, thread B compiles brand-new texts; A is pre-empted at each of the
+        # first lines of each of its compile() calls (between a cache's look-up and its book-keeping, if there is a cache)
+        doc = [{"a": k % 7, "b": [k % 3, k % 5]} for k in range(6)]
+        text = lambda k: f"$[?@.a == {k % 7} && @.b[{k % 2}] <= {k // 7}]"  # noqa: E731
+        olds = [300 - 64, 300 - 128, 300 - 256]       # newest first: asking for one must not disturb the age of the next
+
+        def make_past():
+            env = jp.JSONPathEnvironment()
+            for k in range(300):
+                env.compile(text(k))
+            holder = {}
+            marks = []
+
+            def body_a():
+                out = []
+                for k in olds:
+                    marks.append(holder["s"].step)
+                    out.append([core.enc_loc(x.location) for x in env.compile(text(k)).find(doc)])
+                return out
+
+            def body_b():
+                return [[core.enc_loc(x.location) for x in env.compile(text(k)).find(doc)] for k in (1000, 1001, 1002)]
+
+            return env, holder, marks, [body_a, body_b]
+
+        _env, holder, marks, bodies = make_past()
+        dry = sched.LineScheduler(bodies, set(), pkg)
+        holder["s"] = dry
+        dry.run()
+        entry_marks = list(marks)
+        plans = [{m + j} for m in entry_marks for j in range(1, 16)]
+        for plan in plans:
+            _env, holder, marks, bodies = make_past()
+            s = sched.LineScheduler(bodies, plan, pkg)
+            holder["s"] = s
+            results = s.run(timeout=30.0)
+            n_sched += 1
+            if s.stuck:
+                stuck += 1
+            for t, ks in ((0, olds), (1, (1000, 1001, 1002))):
+                kind, val = results[t] if results[t] is not None else ("raise", RuntimeError("thread did not finish"))
+                if kind == "ok":
+                    for k, locs in zip(ks, val):
+                        add(text(k), doc, ("ok", locs), "preempt2-env-with-a-past")
+                else:
+                    add(text(ks[0]), doc, (kind, val), "preempt2-env-with-a-past")
     return recs, n_sched, stuck
 
 
